@@ -1,3 +1,144 @@
-From SA Require Import Model.Auc.
-Example C07_placeholder : trapz [1; 1] [0; 1] == 1.
-Proof. reflexivity. Qed.
+(* Props/C07.v — property C07: AUC equals the Mann-Whitney statistic; partial AUC is the exact
+   step-ROC area.  Statements only; proofs in Proofs/{Trapz,Window,Clamp,Auc,AucStep}Facts.v.
+   Model: Model/Auc.v ([auc succ pred s lower upper x_axis y_axis], literal transcription of
+   Scores.auc: points one ulp either side of every score, sort, two rate vectors, reversal test,
+   two searchsorted cuts, index clamps, flat extension, trapezoid rule, abs).
+   succ/pred = np.nextafter(., +inf / -inf), abstract: any [carrier isD succ pred] (Base/Carrier.v);
+   [isD] = representable values.  Scores are quantified as [scores] records; sortedness of the two
+   classes ([wf s], established by the constructor) is only needed where stated. *)
+From SA Require Import Model.Auc Model.Harness Proofs.ClampFacts Proofs.AucFacts Proofs.AucStepFacts.
+Open Scope Q_scope.
+
+(* ---- reference quantities, spelled out ---- *)
+(* pair kernel: 1 if the positive p lies on the positive side of the negative n (direction given by
+   score_class), 1/2 for a tie, 0 otherwise *)
+Definition C07_k (sc : label) (p n : Q) : Q :=
+  match sc with
+  | Pos => if Qltb n p then 1 else if Qltb p n then 0 else 1#2
+  | Neg => if Qltb p n then 1 else if Qltb n p then 0 else 1#2
+  end.
+(* Mann-Whitney statistic over ALL samples: scored pairs, every easy positive beats every negative
+   (scored or easy), every easy negative loses against every scored positive *)
+Definition C07_mw (s : scores) : Q :=
+  (Qsum (map (fun p => Qsum (map (fun n => C07_k (score_class s) p n) (neg s))) (pos s))
+   + inject_Z (easy_pos s * (len (neg s) + easy_neg s) + easy_neg s * len (pos s)))
+  / inject_Z ((len (pos s) + easy_pos s) * (len (neg s) + easy_neg s)).
+
+(* area under the empirical step ROC between lo and up (fpr on x, tpr on y): the negatives in the
+   order in which they become false positives (descending for score_class = pos, ascending for neg);
+   over the j-th FPR cell [j/N_all, (j+1)/N_all] the curve has the height
+   (#positives strictly beyond that negative + easy positives)/P_all; beyond the last scored negative
+   (easy negatives) the height is 1.  [ovl a b lo up] = length of [a,b] /\ [lo,up];
+   [wsum w j l g] = sum_i w(j+i) * g(l_i). *)
+Definition C07_step_area (s : scores) (lo up : Q) : Q :=
+  let N_all := inject_Z (len (neg s) + easy_neg s) in
+  let P_all := inject_Z (len (pos s) + easy_pos s) in
+  wsum (fun j => ovl (inject_Z j / N_all) (inject_Z (j + 1) / N_all) lo up) 0
+       (match score_class s with Pos => rev (neg s) | Neg => neg s end)
+       (fun n => inject_Z (count (fun p => match score_class s with Pos => Qltb n p | Neg => Qltb p n end) (pos s)
+                           + easy_pos s) / P_all)
+  + ovl (inject_Z (len (neg s)) / N_all) 1 lo up * 1.
+
+(* ---- clause 1: full AUC = Mann-Whitney; all score lists (ties of any kind, adjacent doubles
+   included), all easy counts, all four (score_class, equal_class) configurations ---- *)
+Theorem C07_full_auc_mw :
+  forall (isD : Q -> Prop) (succ pred : Q -> Q), carrier isD succ pred ->
+  forall s : scores,
+  pos s <> [] -> neg s <> [] -> (0 <= easy_pos s)%Z -> (0 <= easy_neg s)%Z -> Forall isD (pos s ++ neg s) ->
+  auc succ pred s 0 1 AFpr ATpr == C07_mw s.
+Proof. exact stmt_full_auc_mw. Qed.
+Print Assumptions C07_full_auc_mw.
+
+(* ... hence independent of equal_class *)
+Theorem C07_full_auc_indep_equal_class :
+  forall (isD : Q -> Prop) (succ pred : Q -> Q), carrier isD succ pred ->
+  forall (ps ns : list Q) (ep en : Z) (sc ec ec' : label),
+  ps <> [] -> ns <> [] -> (0 <= ep)%Z -> (0 <= en)%Z -> Forall isD (ps ++ ns) ->
+  auc succ pred (mkScores ps ns ep en sc ec) 0 1 AFpr ATpr == auc succ pred (mkScores ps ns ep en sc ec') 0 1 AFpr ATpr.
+Proof. exact stmt_indep_equal_class. Qed.
+Print Assumptions C07_full_auc_indep_equal_class.
+
+(* ---- clause: complementing the y-axis, every window lower <= upper (ties allowed) ---- *)
+Theorem C07_complement_y :
+  forall (isD : Q -> Prop) (succ pred : Q -> Q), carrier isD succ pred ->
+  forall (s : scores) (lower upper : Q),
+  pos s <> [] -> neg s <> [] -> (0 <= easy_pos s)%Z -> (0 <= easy_neg s)%Z -> lower <= upper ->
+  auc succ pred s lower upper AFpr AFnr == (upper - lower) - auc succ pred s lower upper AFpr ATpr.
+Proof. exact stmt_complement_y. Qed.
+Print Assumptions C07_complement_y.
+
+(* ---- clause: complementing the x-axis mirrors the interval, every window (ties allowed) ---- *)
+Theorem C07_mirror_x :
+  forall (isD : Q -> Prop) (succ pred : Q -> Q), carrier isD succ pred ->
+  forall (s : scores) (lower upper : Q),
+  pos s <> [] -> neg s <> [] -> (0 <= easy_pos s)%Z -> (0 <= easy_neg s)%Z ->
+  auc succ pred s (1 - upper) (1 - lower) ATnr ATpr == auc succ pred s lower upper AFpr ATpr.
+Proof. exact stmt_mirror_x. Qed.
+Print Assumptions C07_mirror_x.
+
+(* ---- clause: exchanging the axes over the full range (ties allowed) ---- *)
+Theorem C07_swap_axes_full :
+  forall (isD : Q -> Prop) (succ pred : Q -> Q), carrier isD succ pred ->
+  forall s : scores,
+  pos s <> [] -> neg s <> [] -> (0 <= easy_pos s)%Z -> (0 <= easy_neg s)%Z ->
+  auc succ pred s 0 1 ATpr AFpr == 1 - auc succ pred s 0 1 AFpr ATpr.
+Proof. exact stmt_swap_axes_full. Qed.
+Print Assumptions C07_swap_axes_full.
+
+(* ---- clause: partial AUC = exact step area; no value shared between the classes (ties inside a
+   class allowed), every window 0 <= lower <= upper <= 1 on or off the rate grid ---- *)
+Theorem C07_partial_step_area :
+  forall (isD : Q -> Prop) (succ pred : Q -> Q), carrier isD succ pred ->
+  forall (s : scores) (lower upper : Q),
+  wf s -> pos s <> [] -> neg s <> [] -> (0 <= easy_pos s)%Z -> (0 <= easy_neg s)%Z -> Forall isD (pos s ++ neg s) ->
+  (forall p n, In p (pos s) -> In n (neg s) -> ~ p == n) ->
+  0 <= lower -> lower <= upper -> upper <= 1 ->
+  auc succ pred s lower upper AFpr ATpr == C07_step_area s lower upper.
+Proof. exact stmt_partial_step_area. Qed.
+Print Assumptions C07_partial_step_area.
+
+(* ... so it is additive over adjacent intervals *)
+Theorem C07_partial_additive :
+  forall (isD : Q -> Prop) (succ pred : Q -> Q), carrier isD succ pred ->
+  forall (s : scores) (lower mid upper : Q),
+  wf s -> pos s <> [] -> neg s <> [] -> (0 <= easy_pos s)%Z -> (0 <= easy_neg s)%Z -> Forall isD (pos s ++ neg s) ->
+  (forall p n, In p (pos s) -> In n (neg s) -> ~ p == n) ->
+  0 <= lower -> lower <= mid -> mid <= upper -> upper <= 1 ->
+  auc succ pred s lower mid AFpr ATpr + auc succ pred s mid upper AFpr ATpr == auc succ pred s lower upper AFpr ATpr.
+Proof. exact stmt_partial_additive. Qed.
+Print Assumptions C07_partial_additive.
+
+(* ... and at most upper - lower (this one holds with ties and for any lower <= upper) *)
+Theorem C07_partial_le_width :
+  forall (isD : Q -> Prop) (succ pred : Q -> Q), carrier isD succ pred ->
+  forall (s : scores) (lower upper : Q),
+  pos s <> [] -> neg s <> [] -> (0 <= easy_pos s)%Z -> (0 <= easy_neg s)%Z -> lower <= upper ->
+  0 <= auc succ pred s lower upper AFpr ATpr /\ auc succ pred s lower upper AFpr ATpr <= upper - lower.
+Proof. exact stmt_partial_le_width. Qed.
+Print Assumptions C07_partial_le_width.
+
+(* the hypotheses are satisfiable (toy carrier: the integers with +-1) *)
+Example C07_example_hyps :
+  let s := mk_scores [3; 1; 3; 5] [4; 0; 3] 1 2 Pos Neg false in
+  carrier isInt (fun x => x + 1) (fun x => x - 1) /\ wf s /\ pos s <> [] /\ neg s <> [] /\ Forall isInt (pos s ++ neg s).
+Proof.
+  split; [exact int_carrier|]. split; [apply CmFacts.mk_scores_wf|]. split; [discriminate|]. split; [discriminate|].
+  repeat constructor; match goal with |- isInt ?q => exists (Qnum q); reflexivity end.
+Qed.
+
+(* binary64 instance, cross-class tie 3 = 3, easy samples: value 20/25 *)
+Example C07_example_full :
+  let s := mk_scores [3; 1; 3; 5] [4; 0; 3] 1 2 Pos Neg false in
+  Qeqb (auc succ64 pred64 s 0 1 AFpr ATpr) (C07_mw s) && Qeqb (C07_mw s) (4#5)
+  && Qeqb (auc succ64 pred64 s 0 1 ATpr AFpr) (1#5)
+  && Qeqb (auc succ64 pred64 s (1#4) (1#2) AFpr AFnr) ((1#4) - auc succ64 pred64 s (1#4) (1#2) AFpr ATpr)
+  && Qeqb (auc succ64 pred64 s (1#2) (3#4) ATnr ATpr) (auc succ64 pred64 s (1#4) (1#2) AFpr ATpr) = true.
+Proof. vm_compute. reflexivity. Qed.
+
+(* binary64 instance without cross-class ties, window off the rate grid *)
+Example C07_example_partial :
+  let s := mk_scores [2; 1; 6; 5] [4; 0; 3; 3] 0 1 Neg Pos false in
+  Qeqb (auc succ64 pred64 s (1#8) (7#10) AFpr ATpr) (C07_step_area s (1#8) (7#10))
+  && Qeqb (auc succ64 pred64 s (1#8) (1#3) AFpr ATpr + auc succ64 pred64 s (1#3) (7#10) AFpr ATpr)
+          (auc succ64 pred64 s (1#8) (7#10) AFpr ATpr) = true.
+Proof. vm_compute. reflexivity. Qed.
